@@ -18,8 +18,13 @@ def pNoCode (ps : List PItem) : Bool := ps.all fun it => !it.isCode
 /-- a template object without code: its parsed items and, if it is prepared, its prepared stream -/
 def OClean (o : MT) : Prop := noCode o.t.items = true ∧ ∀ ps, o.prep = some ps → pNoCode ps = true
 
-/-- the flag is off and every object in the cache is clean -/
-def MCleanM (st : MSt) : Prop := st.flag = false ∧ ∀ e ∈ st.cache, OClean e.2
+/-- the cache entry is the parse of the file of its name -/
+def FaithE (fs : FS) (e : (Nat × Bool) × MT) : Prop :=
+  ∃ f, fs.lookup e.1.1 = some f ∧ e.2.t.items = f.items
+
+/-- the flag is off, every object in the cache is clean, and every entry is the parse of the file
+    of its name -/
+def MCleanM (fs : FS) (st : MSt) : Prop := st.flag = false ∧ ∀ e ∈ st.cache, OClean e.2 ∧ FaithE fs e
 
 theorem pNoCode_append (a b : List PItem) : pNoCode (a ++ b) = (pNoCode a && pNoCode b) := by
   simp [pNoCode, List.all_append]
@@ -30,8 +35,8 @@ theorem pNoCode_snoc (ps : List PItem) (it : PItem) (h : pNoCode ps = true) (hi 
   simp [pNoCode, hi]
 
 theorem loadM_clean (cap : Nat) (fs : FS) (st st' : MSt) (name : Nat) (c : Cls) (abs : Bool) (o : MT)
-    (hc : MCleanM st) (h : loadM cap fs st name c abs = .ok (st', o)) :
-    MCleanM st' ∧ OClean o ∧ st'.sentinel = st.sentinel := by
+    (hc : MCleanM fs st) (h : loadM cap fs st name c abs = .ok (st', o)) :
+    MCleanM fs st' ∧ OClean o ∧ st'.sentinel = st.sentinel := by
   unfold loadM at h
   cases hl : st.cache.lookup (name, abs) with
   | some o0 =>
@@ -39,7 +44,7 @@ theorem loadM_clean (cap : Nat) (fs : FS) (st st' : MSt) (name : Nat) (c : Cls) 
       simp only [Except.ok.injEq, Prod.mk.injEq] at h
       obtain ⟨rfl, rfl⟩ := h
       have ho := hc.2 _ (lookup_mem hl)
-      refine ⟨⟨hc.1, ?_⟩, ho, rfl⟩
+      refine ⟨⟨hc.1, ?_⟩, ho.1, rfl⟩
       intro e he
       simp only [List.mem_cons, List.mem_filter] at he
       rcases he with rfl | ⟨he, _⟩
@@ -61,32 +66,35 @@ theorem loadM_clean (cap : Nat) (fs : FS) (st st' : MSt) (name : Nat) (c : Cls) 
               have hflag : st.flag = false := hc.1
               rw [hflag] at hp
               have ht := parse_off_clean c name f _ hp
+              have hi := (parse_items c false name f _ hp).1
               have ho : OClean ⟨st.next, t1, none⟩ := ⟨ht, fun ps hps => by cases hps⟩
               refine ⟨⟨hc.1, ?_⟩, ho, rfl⟩
               intro e he
               have he' := List.mem_of_mem_take he
               simp only [List.mem_cons, List.mem_filter] at he'
               rcases he' with rfl | ⟨he', _⟩
-              · exact ho
+              · exact ⟨ho, f, hf, hi⟩
               · exact hc.2 e he'
 
-theorem writeBack_clean (st : MSt) (o : MT) (hc : MCleanM st) (ho : OClean o) :
-    MCleanM (writeBack st o) ∧ (writeBack st o).sentinel = st.sentinel := by
+theorem writeBack_clean (fs : FS) (st : MSt) (o : MT) (hc : MCleanM fs st) (ho : OClean o) :
+    MCleanM fs (writeBack st o) ∧ (writeBack st o).sentinel = st.sentinel := by
   refine ⟨⟨hc.1, ?_⟩, rfl⟩
   intro e he
   simp only [writeBack, List.mem_map] at he
   obtain ⟨e0, he0, rfl⟩ := he
+  obtain ⟨h0, hf0⟩ := hc.2 e0 he0
   by_cases hid : (e0.2.oid == o.oid) = true
-  · rw [if_pos hid]; exact ho
-  · rw [if_neg hid]; exact hc.2 e0 he0
+  · rw [if_pos hid]
+    exact ⟨⟨h0.1, fun ps h => ho.2 ps h⟩, hf0⟩
+  · rw [if_neg hid]; exact ⟨h0, hf0⟩
 
 /-- what a clean preparation leaves behind: still clean, sentinel untouched, a code-free stream -/
-def KeepsP (s0 : List Nat) (r : PRes) : Prop :=
-  MCleanM r.1 ∧ r.1.sentinel = s0 ∧ ∀ ps, r.2 = .ok ps → pNoCode ps = true
+def KeepsP (fs : FS) (s0 : List Nat) (r : PRes) : Prop :=
+  MCleanM fs r.1 ∧ r.1.sentinel = s0 ∧ ∀ ps, r.2 = .ok ps → pNoCode ps = true
 
 theorem prepM_clean (cap : Nat) (fuel : Nat) (fs : FS) :
-    ∀ (stack : List Nat) (o : MT) (st : MSt), MCleanM st → OClean o →
-      KeepsP st.sentinel (prepM cap fuel fs stack o st) := by
+    ∀ (stack : List Nat) (o : MT) (st : MSt), MCleanM fs st → OClean o →
+      KeepsP fs st.sentinel (prepM cap fuel fs stack o st) := by
   induction fuel with
   | zero => intro stack o st hc _; exact ⟨hc, rfl, fun ps h => by cases h⟩
   | succ fuel ih =>
@@ -96,7 +104,7 @@ theorem prepM_clean (cap : Nat) (fuel : Nat) (fs : FS) :
       | some ps => exact ⟨hc, rfl, fun ps' h => by cases h; exact ho.2 ps hp⟩
       | none =>
           simp only
-          have hfold : KeepsP st.sentinel (o.t.items.foldl (fun (acc : PRes) it =>
+          have hfold : KeepsP fs st.sentinel (o.t.items.foldl (fun (acc : PRes) it =>
             match acc with
             | (st, .error e) => (st, .error e)
             | (st, .ok ps) =>
@@ -117,7 +125,7 @@ theorem prepM_clean (cap : Nat) (fuel : Nat) (fs : FS) :
                             match prepM cap fuel fs (o'.t.name :: stack) o' st' with
                             | (st'', .error e) => (st'', .error e)
                             | (st'', .ok sub) => (st'', .ok (ps ++ sub))) (st, .ok [])) := by
-            apply foldl_inv (KeepsP st.sentinel)
+            apply foldl_inv (KeepsP fs st.sentinel)
             · exact ⟨hc, rfl, fun ps h => by cases h; rfl⟩
             · intro acc it hit hacc
               obtain ⟨sa, ea⟩ := acc
@@ -172,13 +180,13 @@ theorem prepM_clean (cap : Nat) (fuel : Nat) (fs : FS) :
           | ok ps =>
               have hps := hp' ps rfl
               have ho2 : OClean { o with prep := some ps } := ⟨ho.1, fun ps' h => by cases h; exact hps⟩
-              obtain ⟨hw, hws⟩ := writeBack_clean st' _ hc' ho2
+              obtain ⟨hw, hws⟩ := writeBack_clean fs st' _ hc' ho2
               exact ⟨hw, hws.trans hs', fun ps' h => by cases h; exact hps⟩
 
-def KeepsM (s0 : List Nat) (r : MRes) : Prop := MCleanM r.1 ∧ r.1.sentinel = s0
+def KeepsM (fs : FS) (s0 : List Nat) (r : MRes) : Prop := MCleanM fs r.1 ∧ r.1.sentinel = s0
 
 theorem genM_clean (cap : Nat) (fuel pf : Nat) (fs : FS) :
-    ∀ (o : MT) (st : MSt), MCleanM st → OClean o → KeepsM st.sentinel (genM cap fuel pf fs o st) := by
+    ∀ (o : MT) (st : MSt), MCleanM fs st → OClean o → KeepsM fs st.sentinel (genM cap fuel pf fs o st) := by
   induction fuel with
   | zero => intro o st hc _; exact ⟨hc, rfl⟩
   | succ fuel ih =>
@@ -193,7 +201,7 @@ theorem genM_clean (cap : Nat) (fuel pf : Nat) (fs : FS) :
           | ok ps =>
               have hps := hp1 ps rfl
               simp only
-              apply foldl_inv (KeepsM st.sentinel)
+              apply foldl_inv (KeepsM fs st.sentinel)
               · exact ⟨hc1, hs1⟩
               · intro acc it hit hacc
                 obtain ⟨sa, ea⟩ := acc
@@ -219,8 +227,8 @@ theorem genM_clean (cap : Nat) (fuel pf : Nat) (fs : FS) :
                             obtain ⟨hc'', hs''⟩ := ih o' st' hc' ho'
                             exact ⟨hc'', hs''.trans (hs'.trans hsa)⟩
 
-theorem histStepM_clean (cap fuel pf : Nat) (fs : FS) (st : MSt) (name : Nat) (c : Cls) (hc : MCleanM st) :
-    MCleanM (histStepM cap fuel pf fs st name c).1 ∧
+theorem histStepM_clean (cap fuel pf : Nat) (fs : FS) (st : MSt) (name : Nat) (c : Cls) (hc : MCleanM fs st) :
+    MCleanM fs (histStepM cap fuel pf fs st name c).1 ∧
       (histStepM cap fuel pf fs st name c).1.sentinel = st.sentinel := by
   unfold histStepM
   cases hl : loadM cap fs st name c false with
@@ -228,7 +236,7 @@ theorem histStepM_clean (cap fuel pf : Nat) (fs : FS) (st : MSt) (name : Nat) (c
   | ok pr =>
       obtain ⟨st', o⟩ := pr
       obtain ⟨hc', ho', hs'⟩ := loadM_clean cap fs st st' name c false o hc hl
-      have hc2 : MCleanM { st' with out := [] } := ⟨hc'.1, hc'.2⟩
+      have hc2 : MCleanM fs { st' with out := [] } := ⟨hc'.1, hc'.2⟩
       obtain ⟨h1, h2⟩ := genM_clean cap fuel pf fs o { st' with out := [] } hc2 ho'
       exact ⟨h1, h2.trans hs'⟩
 
@@ -236,8 +244,8 @@ theorem histStepM_clean (cap fuel pf : Nat) (fs : FS) (st : MSt) (name : Nat) (c
 def runHistoryM (cap fuel pf : Nat) (fs : FS) (st : MSt) (hist : List (Nat × Cls)) : MSt :=
   hist.foldl (fun st nc => (histStepM cap fuel pf fs st nc.1 nc.2).1) st
 
-theorem runHistoryM_clean (cap fuel pf : Nat) (fs : FS) (hist : List (Nat × Cls)) (st : MSt) (hc : MCleanM st) :
-    MCleanM (runHistoryM cap fuel pf fs st hist) ∧ (runHistoryM cap fuel pf fs st hist).sentinel = st.sentinel := by
+theorem runHistoryM_clean (cap fuel pf : Nat) (fs : FS) (hist : List (Nat × Cls)) (st : MSt) (hc : MCleanM fs st) :
+    MCleanM fs (runHistoryM cap fuel pf fs st hist) ∧ (runHistoryM cap fuel pf fs st hist).sentinel = st.sentinel := by
   unfold runHistoryM
   induction hist generalizing st with
   | nil => exact ⟨hc, rfl⟩
@@ -247,24 +255,23 @@ theorem runHistoryM_clean (cap fuel pf : Nat) (fs : FS) (hist : List (Nat × Cls
       obtain ⟨h3, h4⟩ := ih _ h1
       exact ⟨h3, h4.trans h2⟩
 
-theorem mst0_clean (ar : Bool) : MCleanM (mst0 false ar) := ⟨rfl, fun e he => by cases he⟩
+theorem mst0_clean (fs : FS) (ar : Bool) : MCleanM fs (mst0 false ar) := ⟨rfl, fun e he => by cases he⟩
 
 /-- with the invariant, loading a file that holds a code block fails — never a cached object —
     and asked for in the language it is written in, with that file's syntax error -/
 theorem loadM_code_fails (cap : Nat) (fs : FS) (st : MSt) (name : Nat) (c : Cls) (abs : Bool) (f : File)
-    (hc : MCleanM st) (hcache : ∀ e ∈ st.cache, ∃ f', fs.lookup e.1.1 = some f' ∧ e.2.t.items = f'.items)
-    (hf : fs.lookup name = some f) (hcode : noCode f.items = false) :
+    (hc : MCleanM fs st) (hf : fs.lookup name = some f) (hcode : noCode f.items = false) :
     ∃ e, loadM cap fs st name c abs = .error e ∧ (f.syn = c → e = .syntax name) := by
   unfold loadM
   cases hl : st.cache.lookup (name, abs) with
   | some o0 =>
       exfalso
       have hm := lookup_mem hl
-      obtain ⟨f', hf', hi⟩ := hcache _ hm
+      obtain ⟨f', hf', hi⟩ := (hc.2 _ hm).2
       simp only at hf'
       rw [hf] at hf'
       cases hf'
-      have := (hc.2 _ hm).1
+      have := (hc.2 _ hm).1.1
       simp only at this
       rw [hi, hcode] at this
       cases this
